@@ -487,6 +487,15 @@ def cases(tier, rng):
                     yield case_line('fp.rtx', 0, d, b(f), seed)
                     yield case_line('fp.rtx', 1, t, b(f), seed)
                     yield case_line('fp.rtx', 3, d + t + [rng.choice(OFFS)], b(f + ' %z'), seed)
+    # --- the same through owned items (parse_to_owned): white space and names perturbed
+    for f in NAMES_WS_FORMS:
+        for d in dates(YEARS_SMALL, [1, 60, 189, 365]):
+            for t in ([0, 0], [43200, 0]):
+                seed = rng.randrange(2**64)
+                yield case_line('fp.rtxo', 2, d + t, b(f), seed)
+                yield case_line('fp.rtxo', 0, d, b(f), seed)
+                yield case_line('fp.rtxo', 1, t, b(f), seed)
+                yield case_line('fp.rtxo', 3, d + t + [rng.choice(OFFS)], b(f + ' %z'), seed)
     # --- a tail after the text
     for f in DATE_FORMS[:40]:
         for tail in TAILS:
